@@ -281,17 +281,49 @@ def r3(ctx):
     ctx.touch(fe)
     g = f.body(SI + "get_first")
     ctx.touch(g)
+    from . import feval as E
     rows = {}
-    for p in P.explore(g):
-        if p.ret[0] == "variant" and p.ret[1] == "Ok":
-            v = [vv for k, vv in p.decisions if k[0] == "discr" and "next#Option" in k[1]]
-            rows["Some" if v and v[0] == 1 else "None"] = (P.short(p.ret), "namespace" in P.calls(p))
-    ctx.check(rows == {"None": ("Ok(call:default)", True), "Some": ("Ok(call:new)", True)}, "C08.R3", g.path, "first-key-or-default", "%s" % rows, g.sp)
-    nw = [t for _, t in g.calls() if callee_matches(t, r"sync::RecordIdentifier::new")]
-    if len(nw) == 1:
-        comps = [sorted({".".join(mir.field_path(o)) for o in trace(g, a)}) for a in nw[0]["a"]]
-        ctx.check([c[-1:] for c in comps] == [["0"], ["1"], ["2"]] or all(len(c) == 1 for c in comps) and [c[0][-1] for c in comps] == ["0", "1", "2"], "C08.R3", g.path, "first-key-components-in-order", "%s" % comps, nw[0]["sp"])
-    ctx.floor("C08.R3", 6)
+    for scen in ("empty", "row", "error"):
+        seen = {}
+
+        def oracle(kind, name, payload, site, scen=scen, seen=seen):
+            if kind != "call":
+                return None
+            t, args, it = payload
+            names = [it.tokname(a) for a in args]
+            if name == "tables":
+                return E.Ok(E.Tok("tables"))
+            if name == "namespace" and callee_matches(t, r"RecordsBounds::namespace"):
+                seen["bounds"] = names
+                return E.Tok("namespace_bounds(%s)" % ",".join(names))
+            if name == "range":
+                seen["range"] = names
+                return E.Ok(E.Tok("iter"))
+            if name == "next":
+                seen["next"] = seen.get("next", 0) + 1
+                if scen == "empty" or seen["next"] > 1:
+                    return E.NONE
+                if scen == "error":
+                    return E.Some(E.Err(E.Tok("storage-error")))
+                return E.Some(E.Ok(("tuple", [E.Tok("key_guard"), E.Tok("value_guard")])))
+            if name == "value" and names == ["key_guard"]:
+                return ("tuple", [E.Tok("k.namespace"), E.Tok("k.author"), E.Tok("k.key")])
+            if callee_matches(t, r"sync::RecordIdentifier::new"):
+                return E.Tok("RecordIdentifier::new(%s)" % ",".join(names))
+            if name == "default":
+                return E.Tok("RecordIdentifier::default()")
+            return None
+        try:
+            ret, hp, ev = E.run(f, g.path, [E.href("self")], {"self": E.Tok("self")}, oracle)
+            rows[scen] = (E.describe(ret, f), seen.get("bounds"), seen.get("range"))
+        except E.Unsupported as e:
+            rows[scen] = ("UNSUPPORTED-FORM: %s" % e, None, None)
+    want_b = ["self.namespace"]
+    okf = rows["empty"][0] == "Ok(RecordIdentifier::default())" and rows["row"][0] == "Ok(RecordIdentifier::new(k.namespace,k.author,k.key))" \
+        and rows["error"][0].startswith("Err(") and all(r[1] == want_b and r[2] is not None and any("namespace_bounds(self.namespace)" in x for x in r[2]) for r in rows.values())
+    ctx.check(okf, "C08.R3", g.path, "first-key-or-default",
+              "by first row of the namespace scan (result, bounds of, range args): %s; spec: empty => default id, row => its (namespace, author, key) in order, error => Err" % rows, g.sp)
+    ctx.floor("C08.R3", 5)
 
 
 def r4(ctx):
